@@ -630,6 +630,59 @@ impl<T: Encode + Decode + Model> Model for Outer1<T> {
         if a.rust in ("u64", "u8", "Vec<u8>"):
             A(vec(g1)); A(option(g1))
             A(T("Outer1<%s>" % a.rust, False, sym=True, default=False, depth=a.depth + 2))
+    for c in const_generic_definitions(g, A, T):
+        if c.rust in ("CArr<4>", "CPkt<4>"):
+            A(vec(c)); A(option(c))
+
+
+def const_generic_definitions(g, A, T):
+    """Containers over a const generic parameter (the parameter spelled `N`, `LEN` and `M`: names a template's own
+    locals could shadow), each instantiated at several values in one process, with values equal to and different from
+    the number of fields."""
+    g.items.append("""
+#[derive(Debug, Clone, PartialEq, Encode, Decode)]
+pub struct CArr<const N: usize> {
+    pub tag: [u8; N],
+    pub id: u16,
+}
+impl<const N: usize> Model for CArr<N> {
+    fn ty() -> String { format!("(cont 1 (bytesn {}) (uint 2))", N) }
+    fn to_model(&self) -> String { format!("(c {} {})", self.tag.to_model(), self.id.to_model()) }
+    fn gen(r: &mut Rng, size: usize) -> Self { CArr { tag: <[u8; N]>::gen(r, size), id: u16::gen(r, size) } }
+}
+#[derive(Debug, Clone, PartialEq, Encode, Decode)]
+pub struct CPkt<const N: usize> {
+    pub id: u16,
+    pub tag: [u8; N],
+    pub body: Vec<u8>,
+}
+impl<const N: usize> Model for CPkt<N> {
+    fn ty() -> String { format!("(cont 1 (uint 2) (bytesn {}) (list (uint 1)))", N) }
+    fn to_model(&self) -> String { format!("(c {} {} {})", self.id.to_model(), self.tag.to_model(), self.body.to_model()) }
+    fn gen(r: &mut Rng, size: usize) -> Self { CPkt { id: u16::gen(r, size), tag: <[u8; N]>::gen(r, size), body: <Vec<u8>>::gen(r, size / 2) } }
+}
+#[derive(Debug, Clone, PartialEq, Encode, Decode)]
+pub struct CLen<const LEN: usize, const M: usize> {
+    pub head: FixedBytes<LEN>,
+    pub items: Vec<[u8; M]>,
+    pub last: [u8; M],
+}
+impl<const LEN: usize, const M: usize> Model for CLen<LEN, M> {
+    fn ty() -> String { format!("(cont 1 (bytesn {}) (list (bytesn {})) (bytesn {}))", LEN, M, M) }
+    fn to_model(&self) -> String { format!("(c {} {} {})", self.head.to_model(), self.items.to_model(), self.last.to_model()) }
+    fn gen(r: &mut Rng, size: usize) -> Self { CLen { head: <FixedBytes<LEN>>::gen(r, size), items: <Vec<[u8; M]>>::gen(r, size / 2), last: <[u8; M]>::gen(r, size) } }
+}
+""")
+    for n in ("CArr", "CPkt", "CLen"):
+        g.derived.add(n)
+    out = []
+    for n in (1, 2, 4, 7):
+        out.append(A(T("CArr<%d>" % n, True, sym=True, default=False, depth=1)))
+    for n in (1, 3, 4, 33):
+        out.append(A(T("CPkt<%d>" % n, False, sym=True, default=False, depth=2)))
+    for l, m in ((3, 1), (4, 2), (1, 5)):
+        out.append(A(T("CLen<%d, %d>" % (l, m), False, sym=True, default=False, depth=2)))
+    return out
 
 
 def random_programs(g, rnd, count):
@@ -698,7 +751,7 @@ def tags_of(t, g):
         tags.add("bitfield")
     if t.fixed:
         tags.add("fixed")
-    for gname in ("Gen1", "Gen2", "Outer1"):
+    for gname in ("Gen1", "Gen2", "Outer1", "CArr", "CPkt", "CLen"):
         if gname + "<" in r:
             tags.add("group:Gen")       # all instantiations of the generic definitions: one shard
     return tags
